@@ -27,6 +27,7 @@ Readings adopted where the statement leaves room
 """
 from __future__ import annotations
 
+import hashlib
 import io
 import re
 from typing import Any
@@ -97,7 +98,7 @@ def _request_bytes(d: dict[str, Any]) -> bytes:
 def _show(d: dict[str, Any]) -> dict[str, Any]:
     return {
         "method_key": list(d["method_key"]), "version": d["version"], "rows": d["rows"], "url": d["url"], "endpoint": d["endpoint"],
-        "columns": [{"name": n, "type": str(t), "nullable": nl, "value": repr(v)[:60]} for n, t, nl, v in d["cols"]],
+        "columns": [{"name": n, "type": str(t), "nullable": nl, "value": repr(v) if len(repr(v)) <= 60 else repr(v)[:40] + "...#" + hashlib.sha1(repr(v).encode()).hexdigest()[:10]} for n, t, nl, v in d["cols"]],
     }
 
 
@@ -553,7 +554,7 @@ def run(ctx: Any) -> None:
             shape_labels = [i for i, (lb, _) in enumerate(perts) if lb.startswith(("nullflip", "null[", "retype", "rename", "add@0:fresh", "drop", "swap"))]
             targeted = [(a, b) for a in conv_labels for b in shape_labels if a != b]
             if not thorough:
-                must = [(a, b) for a, b in targeted if perts[a][0].startswith("dc-truncated-body")]
+                must = [(a, b) for a, b in targeted if perts[a][0].startswith(("dc-invalid-utf8", "dc-truncated-body"))]
                 rest = [x for x in targeted if x not in must]
                 rng.shuffle(rest)
                 targeted = must + rest[:30]
@@ -567,7 +568,7 @@ def run(ctx: Any) -> None:
     ctx.count("single_perturbations", n_single)
     ctx.count("pair_perturbations", n_pair)
     ctx.sample({"service": 0, "method": "m0(a: int, b: str, c: float | None = 0.5, e: Color = GREEN)", "perturbation": "retype[0]->int32", "expected": "refused: TypeError, HTTP 400"})
-    ctx.sample({"service": 0, "method": "m1(v: DC, m: dict[str,int], s: frozenset[int], l: list[int], w: int32)", "perturbation": "dc-truncated-body[0]+retype[4]->int64", "expected": "refused: HTTP 400 (columns do not conform)"})
+    ctx.sample({"service": 0, "method": "m1(v: DC, m: dict[str,int], s: frozenset[int], l: list[int], w: int32)", "perturbation": "dc-invalid-utf8[0]+retype[4]->int64", "expected": "refused: HTTP 400 (columns do not conform)"})
     ctx.sample({"service": 0, "method": "m0", "perturbation": "valid", "behaviour": "raise TypeError", "expected": "HTTP 200 + X-VGI-RPC-Error, error class TypeError"})
 
     # ---- model side ----------------------------------------------------------------------------------------------
